@@ -7,16 +7,17 @@
 EXTENDS Rlp, Json
 Cases == ndJsonDeserialize("cases.ndjson")
 VARIABLES k, j, b
-\* (k, j) = (0, 0) is a start state that fans out to one state per input, so that all the
-\* evaluation happens on TLC's worker threads (deep recursion needs their large stacks)
+\* (0, 0) is a start state that fans out to one state per case and then one per input, so that
+\* all the evaluation happens in parallel on TLC's worker threads (deep recursion needs their large stacks)
 Init == k = 0 /\ j = 0 /\ b = << >>
-Next == /\ k = 0
-        /\ k' \in 1..Len(Cases)
-        /\ j' \in 0..Len(Cases[k'].m)
-        /\ b' = IF j' = 0 THEN Enc(Cases[k'].t) ELSE Cases[k'].m[j']
+Next == \/ /\ k = 0 /\ k' \in 1..Len(Cases) /\ j' = Len(Cases[k'].m) + 1 /\ b' = << >>      \* pick a case
+        \/ /\ k > 0 /\ j = Len(Cases[k].m) + 1 /\ k' = k                                   \* pick one of its inputs
+           /\ j' \in 0..Len(Cases[k].m)
+           /\ b' = IF j' = 0 THEN Enc(Cases[k].t) ELSE Cases[k].m[j']
+IsInput == k > 0 /\ j <= Len(Cases[k].m)
 Spec == Init /\ [][Next]_<<k, j, b>>
-GeneratorAgrees == k > 0 => Cases[k].e = Enc(Cases[k].t)
-RoundTrips == (k > 0 /\ j = 0) => RoundTrip(Cases[k].t)
-LawsHold == k > 0 => Laws(b)
-Emit == k > 0 => PrintT(ToJson(Row(b)))
+GeneratorAgrees == IsInput => Cases[k].e = Enc(Cases[k].t)
+RoundTrips == (IsInput /\ j = 0) => RoundTrip(Cases[k].t)
+LawsHold == IsInput => Laws(b)
+Emit == IsInput => PrintT(ToJson(Row(b)))
 =============================================================================
